@@ -367,6 +367,16 @@ pub fn judge_configs(st: &mut Stats, spec: &DiagSpec, only: Option<&Value>, with
         }
         judge_configs_scaled(st, spec, only, with_parallel, scale);
     }
+    // representation variants of the same diagram (the drivers take "the first T spiders" / "the first neighbour"):
+    // edges inserted in the opposite order, and an id gap (two vertices created and removed first)
+    if only.is_none() {
+        let mut rev = spec.clone();
+        rev.edges.reverse();
+        judge_configs_scaled(st, &rev, None, with_parallel, 0);
+        let mut gapped = spec.clone();
+        gapped.gap = 2;
+        judge_configs_scaled(st, &gapped, None, with_parallel, 0);
+    }
 }
 
 fn judge_configs_scaled(st: &mut Stats, spec: &DiagSpec, only: Option<&Value>, with_parallel: bool, scale: i32) {
@@ -932,7 +942,7 @@ pub fn run(rep: &mut Report) {
         fams.push(("cat stars in hosts".into(), cat_family(true), true));
         fams.push(("6/7-T families".into(), many_t_family(), true));
         fams.push(("gadget groups".into(), gadget_group_family(), true));
-        for (gn, sn) in [(3usize, 2usize), (4, 1)] {
+        for (gn, sn) in [(3usize, 2usize)] {
             fams.push((format!("closed gadget webs W({},{})", gn, sn), (0..crate::checks::c04::gadget_web_count(gn, sn)).map(|i| crate::checks::c04::gadget_web_at_opt(gn, sn, i, true)).collect(), false));
         }
     } else {
@@ -946,7 +956,7 @@ pub fn run(rep: &mut Report) {
         fams.push(("cat stars in hosts".into(), cat_family(false), true));
         fams.push(("6/7-T families".into(), many_t_family(), true));
         fams.push(("gadget groups".into(), gadget_group_family(), true));
-        for (gn, sn) in [(3usize, 2usize), (4, 2), (5, 1)] {
+        for (gn, sn) in [(3usize, 2usize), (4, 1), (4, 2), (5, 1)] {
             fams.push((format!("closed gadget webs W({},{})", gn, sn), (0..crate::checks::c04::gadget_web_count(gn, sn)).map(|i| crate::checks::c04::gadget_web_at_opt(gn, sn, i, true)).collect(), false));
         }
     }
@@ -1023,7 +1033,11 @@ pub fn run(rep: &mut Report) {
     {
         let t0 = Instant::now();
         let mut fam: Vec<DiagSpec> = vec![];
-        for (_, f, _) in &fams {
+        for (name, f, _) in &fams {
+            // quick: the gadget webs are left to the configuration sweep (they add 6000 diagrams to the per-step family)
+            if quick && name.starts_with("closed gadget webs") {
+                continue;
+            }
             fam.extend(f.iter().cloned());
         }
         let stats = sweep(&fam, |st, i, spec| {
